@@ -256,8 +256,7 @@ harness('rotate_fs', schemas=False)
 harness('xml_tree', schemas=False)
 harness('timer_mon', schemas=False)
 harness('sched_mon', schemas=False)
-harness('queue_stress', schemas=False)
-harness('queue_sched', schemas=False)
+harness('queue_mon', schemas=False)
 harness('session_sim', schemas=True)
 harness('reader_frame', schemas=True)
 harness('conc_send', schemas=True)
